@@ -141,6 +141,14 @@ CHECKS = {
         "note": "Trusted: Wire.tla's value space as the set of notifications, the harness. Real time (multi-thread runtime) in the end-to-end part with generous timeouts (500-800 ms waits on an in-memory stream).",
         "technique": "TLC-enumerated notification values replayed into both broker protocol writers + end-to-end runs over the real router and remote()",
     },
+    "C17": {
+        "bins": ["router_run"], "bins_small": ["router_run"],
+        "category": "model_checking",
+        "text": "Router.tla models Router.shared_subscriptions (per group: members in order, whose turn, cursor), how a member's request adopts the group cursor, the skip / park / forward decision of forward_device_data for the three strategies, and the group clean-up on UNSUBSCRIBE, disconnect and session resume; RouterSys.tla states the property on ghost state: per shared path the messages forwarded since the group became non-empty (at most once, only to members, per member in log order, only messages accepted since then) and, when the router is still and the members have acknowledged, every message accepted since then forwarded. TLC model-checks 4 (quick) / 9 (thorough) small configurations (round-robin, random, sticky; members leaving, unsubscribing, persistent, resuming; two paths under one group name; QoS 0-2). TLC-generated schedules and seeded drivers (joins, leaves, take-overs, resumes, bursts, ack pacing; scaled and production constants) plus the histories that exposed the repaired defects run on the real router; every recorded step must be a model step with the same projection (including every group's members, turn and cursor) and the invariants are evaluated in every state.",
+        "design_ref": "DESIGN.md section 6 / C17",
+        "note": "Trusted: Router.tla as the reading of routing.rs / shared_subs.rs, TLC, the harness projection. Known finding persistent-member-rewind is witnessed on the real router and its duplicates are left out of the at-most-once invariant (SharedAtMostOnceButRewind).",
+        "technique": "TLC model checking of the TLA+ router model with shared groups + spec->impl replay of TLC-generated schedules with TLC trace validation (impl->spec) of every router step",
+    },
     "C12": {
         "bins": ["topics"],
         "category": "exploration",
@@ -184,7 +192,7 @@ for i in range(1, 21):
         NOT_YET[pid] = "not claimed yet: specification and conformance harness for this property are still under construction (DESIGN.md section 6)"
 
 
-def head(repo, n=20):
+def head(repo, n=1000):
     try:
         out = subprocess.run(["git", "-C", repo, "log", "--format=%H %s", "-n", str(n)], stdout=subprocess.PIPE, text=True).stdout
     except Exception:
